@@ -233,6 +233,7 @@ struct GenCfg {
   bool repeats = false;         // C15 repeat calls
   bool small_pools = false;     // C15 colliding parameter pools
   bool q120 = false;
+  bool simple_storm = false;    // C12: tasks hammer one *_simple function over many dimensions (cache eviction / replacement paths)
   bool large_world = false;     // C12: a few worlds use only large dimensions (4096..16384), few tasks, homogeneous work
   bool edge_products = false;   // some products sit at the edge of the 52-bit budget and are compared within the documented error bound
   bool kernel_pairs = false;    // C07 ride-along: exported ref/avx2 kernel twins on identical operands
@@ -320,3 +321,5 @@ bool op_is_integer_output(const Program& P, const Call& c, int k);
 /** set by self-checking life-cycle operations (thread local): number of wrong coefficients in the last op_invoke */
 int& op_selfcheck_errors();
 int& op_leak_errors();
+/** ride-along reference for the q120 entry points (lane-wise congruences); empty string = result is right */
+std::string q120_reference_check(const Program& P, const Call& c, uint8_t* const* ptr);
